@@ -10,6 +10,7 @@ CONSTANTS
   AllowNil = FALSE
   ChainOnly = FALSE
   WriteNewest = FALSE
+  AllowCopy = FALSE
   EarlyStop = FALSE
   Emit = TRUE
 INVARIANTS ViewsOK Compose ContigIsRun Live
